@@ -206,6 +206,25 @@ Qed.
 Print Assumptions C19_second_pass_sound_complete_partial.
 
 (* ------------------------------------------------------------------------- *)
+(* sub-bin peak interpolation (parabolic_max)                                  *)
+(* ------------------------------------------------------------------------- *)
+
+(* three samples of the parabola A (k - h)^2 + M at k = -1, 0, 1: the interpolated peak is
+   exactly h and the interpolated maximum exactly M *)
+Theorem C19_parabolic_max_exact_on_parabola : forall A h M : Q, ~ (A == 0)%Q ->
+  let v := fun k : Q => (A * (k - h) * (k - h) + M)%Q in
+  (fst (peak3 (v (-1)%Q) (v 0%Q) (v 1%Q)) == h)%Q /\ (snd (peak3 (v (-1)%Q) (v 0%Q) (v 1%Q)) == M)%Q.
+Proof. exact peak3_parabola. Qed.
+Print Assumptions C19_parabolic_max_exact_on_parabola.
+
+(* when the centre sample is a maximum (it is the argmax) the correction stays within half a
+   bin, so delta_t moves by at most tbin/2 *)
+Theorem C19_parabolic_max_within_half_bin : forall v0 v1 v2 : Q, (v0 <= v1)%Q -> (v2 <= v1)%Q ->
+  (- (1 # 2) <= fst (peak3 v0 v1 v2) <= 1 # 2)%Q.
+Proof. exact peak3_half_bin. Qed.
+Print Assumptions C19_parabolic_max_within_half_bin.
+
+(* ------------------------------------------------------------------------- *)
 (* the hypotheses are satisfiable: a concrete train (ticks of 1 ms)           *)
 (* ------------------------------------------------------------------------- *)
 (* events at 0, 1, 3, 7, 12, 20, 200 s; clock b = 1.001 * a + 5 s (drift 1000 ppm so that
@@ -245,3 +264,8 @@ Example ex_separation :
                            - t (snd p)) <=? 20)
           [(0%nat, 0); (1%nat, 1); (2%nat, 2); (3%nat, 3); (4%nat, 5)] = true.
 Proof. vm_compute. reflexivity. Qed.
+
+Example ex_parabolic_max :
+  Qeq_bool (fst (parabolic_max [0; 0; 0; 0; 1; 3; 2; 0]%Q)) (31 # 6) = true /\
+  Qeq_bool (snd (parabolic_max [0; 0; 0; 0; 1; 3; 2; 0]%Q)) (73 # 24) = true.
+Proof. vm_compute. split; reflexivity. Qed.
